@@ -74,6 +74,13 @@ def gen_server(c, P):
             if c.concrete is None:
                 c.assume(z3.ULT(r.e, 0x80))
             items += frame(8, [hi, lo, r])
+        elif a == 'close123':
+            # the longest legal Close: 2-byte code + 123-byte reason
+            r0 = c.byte('r%da' % i)
+            if c.concrete is None:
+                c.assume(z3.ULT(r0.e, 0x80))
+            # (symbolic byte last: the incremental validator state stays concrete until then)
+            items += frame(8, [0x03, 0xE8] + [0x72] * 122 + [r0])
         elif a == 'frag':
             items += frame(2, [c.byte('f%da' % i)], fin=False) + frame(0, [c.byte('f%db' % i)])
         else:
@@ -157,6 +164,11 @@ class App(object):
             elif act == 'close':
                 code = self.c.int('acode%d' % self.n, 16)
                 reason = mk_bytes([self.c.byte('areason%d' % self.n)])
+                call['close_args'] = (code, reason)
+                ws.close(code, reason)
+            elif act == 'close_long':
+                code = self.c.int('acode%d' % self.n, 16)
+                reason = b'R' * 123
                 call['close_args'] = (code, reason)
                 ws.close(code, reason)
             elif act == 'close_default':
@@ -476,7 +488,7 @@ def check_c08(c, w, rec, app, stream, ws, errors):
             while end_li < len(w.log) and not (w.log[end_li][0] == 'app-end' and w.log[end_li][1] == e[1]):
                 end_li += 1
             faulted = any(x[0] == 'fault' for x in w.log[li:end_li])
-            if act in ('close', 'close_default'):
+            if act in ('close', 'close_default', 'close_long'):
                 if active:
                     cls.add('app-close@' + call['ev'])
                     # exactly one Close frame with the given code and reason written during the call
@@ -572,7 +584,7 @@ def check_c08(c, w, rec, app, stream, ws, errors):
                     if f['log'] < li:
                         c.fail('C08: Close written before the Closing event')
                     m = ref.msgs[ref.server_close_at]
-                    app_closed_during = any(x['action'] in ('close', 'close_default') and x['idx'] == evs.index(sc_ev)
+                    app_closed_during = any(x['action'] in ('close', 'close_default', 'close_long') and x['idx'] == evs.index(sc_ev)
                                             for x in app.calls)
                     if not app_closed_during:
                         if m[1] is None:
